@@ -352,6 +352,8 @@ class Ctx:
         # evidence under /verif/evidence always describes /repo itself; a run against a scratch copy (VERIF_REPO, used by
         # bin/mutant and bin/seedtest) writes its evidence next to the scratch data instead
         edir = os.path.join(VERIF, "evidence") if os.path.realpath(self.repo) == "/repo" else os.path.join(self.scratch, "evidence")
+        if edir.startswith(VERIF) and not re.fullmatch(r"C\d\d", self.pid):
+            edir = os.path.join(VERIF, "evidence_extra")     # modules beyond the listed properties (checks/X*.py)
         os.makedirs(edir, exist_ok=True)
         json.dump(ev, open(os.path.join(edir, self.pid + ".json"), "w"), indent=1, default=str)
 
